@@ -267,9 +267,11 @@ def run(chk):
             cover |= {p for p in paths_of(e[2][0]) if p in list_ns}
             if sid is not None and sid[0] == "var" and not cover:
                 # a used-set (contents are references, not element names): not an existence test
+                nex -= 1
                 continue
             want = set(T["namespaces"].get(ns, []))
             if not cover:
+                nex -= 1      # content of the consulted collection not resolved: not counted (the floor is on decided instances)
                 continue
             wrong = {c for c in cover if list_ns.get(c) != ns}
             if wrong:
